@@ -533,7 +533,10 @@ class KconfigOptionBlock(KconfigBlock):
 
             elif tokens[0] == "help":
                 new_loc, parsed_help = self.help_block.parseImpl(instring, current_loc)
-                option_dict["help"] = "\n".join(parsed_help)
+                # Blank lines between the "help" keyword and the first line of the text are not part of the text
+                # (same as parser v1); they still count for help_text_indices below.
+                first_text_line = next((i for i, help_line in enumerate(parsed_help) if help_line.strip()), 0)
+                option_dict["help"] = "\n".join(parsed_help[first_text_line:])
                 current_loc = new_loc
                 help_text_indices = [i for i in range(idx + 1, idx + 1 + len(parsed_help))]
 
